@@ -131,6 +131,43 @@ func (e *c10ex) Exec(op string) string {
 		return okErr(e.a.RobotNB("deleteCCTransferFrom", w[1]))
 	case "cancel":
 		return okErr(e.a.RobotBatched("cancelCCTransferFrom", w[1]))
+	case "xto", "xcommit", "xdelto", "xdelfrom", "xcancel":
+		// the robot's steps attempted by an ordinary client certificate; whatever gets recorded is
+		// then executed by the robot's next batch, as the robot executes every pending request it finds
+		stranger := func(c *world.Chan, batched bool, fn string, args ...string) string {
+			id := simpeer.NewTxID()
+			r := c.Invoke(wd.Client.Creator, id, fn, args...)
+			if !r.OK() {
+				return "err"
+			}
+			if !batched {
+				return "ok"
+			}
+			b := c.ExecIDs(id)
+			if b.Resp == nil || len(b.Resp.TxResponses) != 1 || b.Resp.TxResponses[0].GetError() != nil {
+				return "err"
+			}
+			return "ok"
+		}
+		switch w[0] {
+		case "xto":
+			if len(w) != 4 || e.u(w[2]) == nil {
+				return "bad-op"
+			}
+			amt, ok := new(big.Int).SetString(w[3], 10)
+			if !ok || amt.Sign() < 0 {
+				return "err"
+			}
+			data, _ := json.Marshal(&fpb.CCTransfer{Id: dec(w[1]), From: "VT", To: "CC", Token: e.token(), User: e.u(w[2]).AddrRaw, Amount: amt.Bytes(), ForwardDirection: e.fwd})
+			return stranger(e.b, true, "createCCTransferTo", string(data))
+		case "xcommit":
+			return stranger(e.a, false, "commitCCTransferFrom", w[1])
+		case "xdelto":
+			return stranger(e.b, false, "deleteCCTransferTo", w[1])
+		case "xdelfrom":
+			return stranger(e.a, false, "deleteCCTransferFrom", w[1])
+		}
+		return stranger(e.a, true, "cancelCCTransferFrom", w[1])
 	case "dump":
 		var as, bs []string
 		stray := new(big.Int)
@@ -236,6 +273,21 @@ func genC10(c *Cfg, emit func([]string)) {
 			}
 		}
 	}
+	// (a') the robot's steps attempted by an ordinary client at every stage of a protocol run
+	stages := [][]string{{}, {"from t1 u0 40"}, {"from t1 u0 40", "to t1 u0 40"}, {"from t1 u0 40", "to t1 u0 40", "commit t1"},
+		{"from t1 u0 40", "to t1 u0 40", "commit t1", "delto t1"}}
+	for _, dir := range []string{"f", "b", "g", "h"} {
+		for _, st := range stages {
+			for _, x := range []string{"xto t1 u0 40", "xcommit t1", "xdelto t1", "xdelfrom t1", "xcancel t1"} {
+				h := []string{"reset " + dir, "fund u0 100"}
+				for _, p := range st {
+					h = append(h, p, "dump")
+				}
+				h = append(h, x, "dump", "to t1 u0 40", "dump", "commit t1", "dump", "cancel t1", "dump")
+				emit(h)
+			}
+		}
+	}
 	// (b) two ids, two users, protocol runs interleaved with out-of-turn and repeated attempts,
 	// wrong content in createTo, duplicate ids, robot stopping anywhere (prefixes)
 	nRand := 600
@@ -286,6 +338,6 @@ func genC10(c *Cfg, emit func([]string)) {
 		}
 		emit(h)
 	}
-	c.Rule = fmt.Sprintf("(a) every sequence of %d steps over {initiate, create-to, commit, delete-to, delete-from, cancel} on one id (forward direction exhaustively, backward %s): every step attempted in and out of turn and repeated, the robot stopping after any prefix; (b) %d random histories over 3 ids x 2 users x both directions with duplicate ids, amounts {0,1,40,50,100,101}, off-protocol create-to content; two real chaincode instances on two simulated peers; after every step token/allowed balances of both users on both channels, both given counters and the records visible through channelTransferFrom/To. non-trivial = contains an initiation; distinct = sha256", depth, map[bool]string{true: "exhaustively", false: "sampled"}[c.Thorough()], nRand)
+	c.Rule = fmt.Sprintf("(a) every sequence of %d steps over {initiate, create-to, commit, delete-to, delete-from, cancel} on one id (forward direction exhaustively, backward %s): every step attempted in and out of turn and repeated, the robot stopping after any prefix; (a') every robot step attempted by an ordinary client certificate at every stage of a run, in all 4 token shapes; (b) %d random histories over 3 ids x 2 users x both directions with duplicate ids, amounts {0,1,40,50,100,101}, off-protocol create-to content; two real chaincode instances on two simulated peers; after every step token/allowed balances of both users on both channels, both given counters and the records visible through channelTransferFrom/To. non-trivial = contains an initiation; distinct = sha256", depth, map[bool]string{true: "exhaustively", false: "sampled"}[c.Thorough()], nRand)
 	c.Extra = map[string]any{"walk_depth": depth, "random": nRand}
 }
